@@ -524,7 +524,9 @@ impl Mp4Track {
         if !self.trafs.is_empty() {
             let mut base_start_time = 0;
             let mut default_sample_duration = self.default_sample_duration;
+            let mut idx_in_run = sample_id.saturating_sub(1) as u64;
             if let Some((traf_idx, sample_idx)) = self.find_traf_idx_and_sample_idx(sample_id) {
+                idx_in_run = sample_idx as u64;
                 let traf = &self.trafs[traf_idx];
                 if let Some(tfdt) = &traf.tfdt {
                     base_start_time = tfdt.base_media_decode_time;
@@ -541,12 +543,24 @@ impl Mp4Track {
                             )?;
                         }
                         let duration = trun.sample_durations[sample_idx];
-                        return Ok((base_start_time + start_offset, duration));
+                        let start_time =
+                            base_start_time
+                                .checked_add(start_offset)
+                                .ok_or(Error::InvalidData(
+                                    "attempt to calculate sample start time with overflow",
+                                ))?;
+                        return Ok((start_time, duration));
                     }
                 }
             }
-            let start_offset = ((sample_id - 1) * default_sample_duration) as u64;
-            Ok((base_start_time + start_offset, default_sample_duration))
+            let start_offset = idx_in_run * default_sample_duration as u64;
+            let start_time =
+                base_start_time
+                    .checked_add(start_offset)
+                    .ok_or(Error::InvalidData(
+                        "attempt to calculate sample start time with overflow",
+                    ))?;
+            Ok((start_time, default_sample_duration))
         } else {
             let stts = &self.trak.mdia.minf.stbl.stts;
 
